@@ -18,11 +18,15 @@ def main():
     na_reasons = json.load(open(na_path)) if os.path.exists(na_path) else {}
     checks = []
     na = []
+    # harness/claimed.json: the properties whose check has been run to completion and passes on
+    # the unchanged tree (maintained by hand; a driver still under construction is not claimed)
+    claimed_path = os.path.join(env.HARNESS, "claimed.json")
+    claimed = set(json.load(open(claimed_path))) if os.path.exists(claimed_path) else None
     for p in props:
         pid = p["id"]
         mod_path = os.path.join(env.HARNESS, "props", pid.lower() + ".py")
         props_v = os.path.join(env.COQ, "Props", pid + ".v")
-        if os.path.exists(mod_path) and os.path.exists(props_v) and pid not in na_reasons:
+        if os.path.exists(mod_path) and os.path.exists(props_v) and pid not in na_reasons and (claimed is None or pid in claimed):
             src = open(mod_path).read()
             # META is a literal dict: evaluate the module lazily without importing allmydata
             sys.path.insert(0, env.HARNESS)
